@@ -595,7 +595,7 @@ pub fn main(mode: &str, args: &[String]) {
                 // bounded exhaustive exploration (the runs of `hqv job|core gen --exhaust d`), each observed by a replay
                 let depth: usize = d.parse().unwrap();
                 let only: Option<u32> = a.value("--scenario").map(|s| s.parse().unwrap());
-                for sc in (0..6u32).filter(|sc| only.is_none_or(|o| o == *sc)) {
+                for sc in (0..10u32).filter(|sc| only.map_or(*sc < 6, |o| o == *sc)) {
                     crate::sim::exhaust(sc, depth, a.shard, a.nshards, |sim, leaf| {
                         let line = format!("case {} 0 sysw exhaust={depth} scenario={sc} {}", a.shard * 100_000_000 + sc as u64 * 10_000_000 + leaf, sim.header());
                         let acts = acts_of(sim);
